@@ -26,6 +26,17 @@ Families of cells
          Jacobian) -> MAP() goes through scipy.
   nl     non-linear / non-Gaussian unimodal problems (WangCubic, exp-link Model, LMRF / CMRF / Laplace
          priors, Laplace noise, small Heat1D / Poisson1D): neighbour + gradient oracle only.
+  hist   process histories: a SEQUENCE of independent problems solved in one process whose complete history is the
+         cell (a process forked from a pristine interpreter that imported the library and never constructed an
+         object of it): problem 1 -> problem 2 -> problem 1 requested again from the same objects -> problem 1 built
+         again; (a) optimiser route: a tiny problem (1-2 unknowns: ML of a matrix / function LinearModel, MAP behind
+         a generic Model with / without Jacobian) and a large badly conditioned one (100 unknowns, ~650 BFGS
+         iterations: ML of a LinearModel, MAP behind a generic Model with Jacobian) in both orders; (b) closed-form /
+         direct route: two DIFFERENT problems that have user-side objects in common (the same forward+adjoint
+         function objects or the same matrix object under two geometries; the same data array object under two
+         noise specifications; the same prior object under two operators and noises; the same model object under
+         two priors; functions + data + prior objects under two geometries and noises) in both orders.  Every step
+         meets the unchanged oracle of its own problem as if solved alone; problem 1 after problem 2 = before it.
 
 Oracle (reference model = dense numpy, the forward map enters only as a black box through
 forward(0), forward(e_i)): an estimate call raises, or the optimiser reports failure, or the returned
@@ -61,7 +72,20 @@ RULE = ("cells = family x full configuration product (see BOUND) of sizes, Gauss
         "sampler for 4 prior-mean kinds x {as specified, after compute_cov()} and answers the standard-normal "
         "request with the complete basis {0,e_1..e_n}+1 linearity probe+1 three-draw run; every returned point is "
         "compared with the dense closed form and with all 4n lattice neighbours of the reference log-density; "
-        "a cell is non-trivial when at least one estimate/draw was returned (not refused) and judged")
+        "a cell is non-trivial when at least one estimate/draw was returned (not refused) and judged; "
+        "process-history facet (family hist): each cell is one complete process history, evaluated in a process forked "
+        "from a pristine interpreter (library imported, no object ever constructed; one such interpreter per worker, "
+        "one fork per cell - what other cells did can not reach it): problem 1 on new objects -> problem 2 on new "
+        "objects -> every estimate / draw of problem 1 requested again from the SAME problem-1 objects -> problem 1 "
+        "built once more; sequences = ordered pairs of (a) one tiny (1-2 unknowns) and one large badly conditioned "
+        "(100 unknowns, singular values 1..1e-5, ~650 BFGS iterations from the default start) optimiser-route problem, "
+        "(b) two different closed-form / direct-route problems with common user-side objects (kind of common object x "
+        "what differs: function objects or matrix object x ordered pair of geometries; data array object x ordered "
+        "pair of noise specifications; prior object x ordered pair of (operator values, noise specification); model "
+        "object x ordered pair of (prior specification, prior mean, noise); function+data+prior objects x ordered pair "
+        "of (geometry with the same number of parameters, noise)); at every step MAP(), direct sampling on the "
+        "complete basis and ML() (b) resp. the one estimate (a) meet the unchanged oracle, and the direct-route "
+        "results of problem 1 after problem 2 equal those before it to 1e-9")
 BOUND = {
     "quick": "lg: (m,n)=(3,2) full 16x16 spec product for (matrix model, default geometry) and (function model, "
              "StepExpansion); every other model x geometry (2 x 6) and the sizes (3,3),(2,3): 34 spec pairs (each of "
@@ -87,7 +111,16 @@ BOUND = {
              "StepExpansion: 3x4 and 4x4 on 4 function values; KLExpansion all modes: 3x3; truncated: 4x4 on 4 function "
              "values; MappedGeometry: 3x3) x 5 spec pairs (x 4 means x {as given, compute_cov()} x {MAP, MAP(x0), direct "
              "sampling} + ML after MAP); ml: the same derivations x parents x shapes x 4 noise specs; nl: LMRF / CMRF "
-             "prior problems additionally with the 4x3 operator given as B.T (MAP through the optimiser, ML)",
+             "prior problems additionally with the 4x3 operator given as B.T (MAP through the optimiser, ML); "
+             "process histories (4 steps each): (a) 4 tiny problems {ML n=1 matrix LinearModel, ML n=2 function "
+             "LinearModel, MAP n=1 generic Model without Jacobian, MAP n=2 generic Model with Jacobian} x 2 large {ML "
+             "105x100 LinearModel, MAP 105x100 generic Model with Jacobian} x 2 orders; (b) on N=4 function values, m=5 "
+             "data: {function objects, matrix object} in common x all 30 ordered pairs of the 6 geometries (scalar "
+             "covariances); data array object in common x 12 ordered pairs of 4 noise specs x {matrix model default "
+             "geometry, function model KLExpansion}; prior object in common x 12 ordered noise pairs (and two operators) x "
+             "2 prior specs x the same 2 models; model object in common x 12 ordered pairs of 4 prior specs (zero / "
+             "vector mean, two noises) x {matrix default, function KLExpansion, matrix StepExpansion}; function+data+prior "
+             "objects in common x 12 ordered pairs of the 4 geometries with n = N x 2 noise pairs",
     "thorough": "lg: (m,n) in {(3,2),(3,3),(2,3)} x 16 likelihood specs x 16 prior specs x 2 models x 6 geometries, "
                 "plus (1,2),(2,1),(4,3) x 34 spec pairs x 2 x 6 (each cell x 4 means x 2 x {MAP, direct sampling}); "
                 "ml: 3 sizes x 16 x 2 x 6 x 2 start points; lgopt: 3 sizes x 16 x 16 x 2 x 3 x 2; nl: 16 problems x 3 "
@@ -105,7 +138,11 @@ BOUND = {
                 "functions returning CUQIarray} x 6 geometries x operators {catalogue matrix (3,2),(3,3),(2,3) and "
                 "square on the function values of n = 2, 3 parameters; symmetric part of the square ones; x[::2], x[1:], "
                 "x for n = 2, 3} x (34 spec pairs for default geometry, 5 otherwise); ml: the same x 16 noise specs x 2 "
-                "starts; nl: as quick x 3 variants",
+                "starts; nl: as quick x 3 variants; process histories: (a) as quick + all ordered pairs of two tiny and "
+                "of the two large problems; (b) N in {4, 6}: {function objects returning ndarray / CUQIarray, dense / csr "
+                "matrix object} x 30 ordered geometry pairs x 5 spec pairs; data / model object: all 240 ordered pairs of "
+                "the 16 specs x models as quick; prior object: 4 prior specs x 12 ordered noise pairs x 2 models; "
+                "function+data+prior: 12 geometry pairs x 12 ordered noise pairs",
 }
 ASSUMPTIONS = [
     "the forward map is taken as a black box: the effective parameter-to-data matrix is [forward(e_i)-forward(0)] "
@@ -137,6 +174,16 @@ ASSUMPTIONS = [
     "a raise there is ignored); a derived model "
     "that refuses (raises) at construction or at the estimate is accepted like every refusal; the square catalogue "
     "matrices are verified to be non-symmetric (max |A - A^T| >= 0.25) when the cells are enumerated",
+    "process histories: histories have two distinct problems (four steps); the pristine interpreter has executed "
+    "'import cuqi' (and its sub-packages) and nothing else of the library - state created by importing is part of every "
+    "history; common user-side objects are never mutated by the check; a Gaussian not specified by cov gets the public "
+    "compute_cov() (without it the direct route refuses); the large problems are verified by the same dense closed "
+    "form (condition number of the Hessian 1e10: the value tolerance there is wide, the gradient decides); in hist "
+    "cells whose model provides the gradient (LinearModel, generic Model with Jacobian) the gradient tolerance is 20 x "
+    "(gtol 1e-5 + rounding) - the finite-difference allowance applies only to the generic Model without Jacobian; the "
+    "L-BFGS-B (CMRF) route has no large problem (unimodality can not be verified there) and is not part of a history; "
+    "optimiser results of problem 1 before / after problem 2 are each held against the closed form, not bitwise "
+    "against each other",
 ]
 
 PARAMS = ["cov", "prec", "sqrtcov", "sqrtprec"]
@@ -312,6 +359,10 @@ def _spec_pairs(full):
 def cells(tier, seed):
     k = refs.cat(seed)
     thorough = tier != "quick"
+    # ---- hist: process histories (sequences of independent problems, each cell in its own fresh interpreter state);
+    #      enumerated first because the cells with 100 unknowns are the longest of the run
+    for c in _hist_cells(k, thorough):
+        yield c
     # ---- lg
     sizes = [(3, 2), (3, 3), (2, 3)] + ([(1, 2), (2, 1), (4, 3)] if thorough else [])
     for (m, n) in sizes:
@@ -539,8 +590,22 @@ class _Problem:
     pass
 
 
-def _build(size, k, cfg):
-    """Build the BayesianProblem of a configuration.  Raises whatever the library raises."""
+def _shared(shared, key, make):
+    """A user-side object of the process-history cells: made once and handed to every problem of the sequence that
+    asks for it (shared["want"]); without `shared` (all other families) a new object per problem."""
+    if shared is None or key not in shared.get("want", ()):
+        return make()
+    if key not in shared:
+        shared[key] = make()
+    return shared[key]
+
+
+def _build(size, k, cfg, shared=None):
+    """Build the BayesianProblem of a configuration.  Raises whatever the library raises.
+
+    shared: user-side objects that several problems of one process-history cell have in common ("A" the matrix object
+    handed to LinearModel, "fns" the forward / adjoint function objects, "b" the data array object, "x" the prior
+    object, "M" the model object); cfg["acat"] shifts the catalogue of the operator's values only."""
     from cuqi.distribution import Gaussian
     from cuqi.model import LinearModel, Model
     from cuqi.problem import BayesianProblem
@@ -549,7 +614,7 @@ def _build(size, k, cfg):
     op, ret = cfg.get("op", "full"), cfg.get("ret", "fresh")
     derive = cfg.get("derive", "none")
     if op == "full":
-        A = refs.full_matrix(m, N, k)
+        A = refs.full_matrix(m, N, k + cfg.get("acat", 0))
     elif op == "sym":                       # symmetric part of the square catalogue matrix
         A = refs.full_matrix(N, N, k)
         A = 0.5 * (A + A.T)
@@ -583,15 +648,18 @@ def _build(size, k, cfg):
             except Exception:       # a parent that cannot assemble its own matrix is transposed all the same
                 pass
         M = B.T
+    elif "M" in (shared or {}):
+        M = shared["M"]
     elif kind in ("matrix", "sparse-csr", "sparse-csc"):
-        if kind == "matrix":
-            Amat = A.copy()
-        else:
+        def matrix_object():
+            if kind == "matrix":
+                return A.copy()
             import scipy.sparse
-            Amat = scipy.sparse.csr_matrix(A) if kind == "sparse-csr" else scipy.sparse.csc_matrix(A)
+            return scipy.sparse.csr_matrix(A) if kind == "sparse-csr" else scipy.sparse.csc_matrix(A)
+        Amat = _shared(shared, "A", matrix_object)
         M = LinearModel(Amat, domain_geometry=geom) if geom is not None else LinearModel(Amat)
     else:
-        fwd, adj = _function_pair(A, op, ret, N)
+        fwd, adj = _shared(shared, "fns", lambda: _function_pair(A, op, ret, N))
         if kind == "function":
             M = LinearModel(fwd, adj, range_geometry=m, domain_geometry=dg)
         elif kind == "generic-jac":
@@ -602,15 +670,18 @@ def _build(size, k, cfg):
             raise ValueError(kind)
     if derive == "TT":
         M = M.T.T
+    if shared is not None and "M" in shared.get("want", ()):
+        shared.setdefault("M", M)
     la, Ce = _spec(m, cfg["lp"], cfg["ls"], k, "lik", cfg.get("lo", "std"))
     pa, Cx = _spec(n, cfg["pp"], cfg["ps"], k, "pri", cfg.get("po", "std"))
     marg, mu = _mean(cfg["mean"], n, k)
-    x = Gaussian(marg, geometry=n, **{cfg["pp"]: pa})
+    x = _shared(shared, "x", lambda: Gaussian(marg, geometry=n, **{cfg["pp"]: pa}))
     # link="model": the model object itself is the mean (its argument is already called x), not a renamed copy M(x)
     y = Gaussian(M if cfg.get("link") == "model" else M(x), **{cfg["lp"]: la})
     b = refs.dyadic_vec(m, k + 1)
     P = _Problem()
-    P.BP = BayesianProblem(y, x).set_data(y=b.copy())
+    # the reference keeps its own copy b of the data values; the library is handed a copy, or the shared array object
+    P.BP = BayesianProblem(y, x).set_data(y=_shared(shared, "b", lambda: b.copy()))
     if cfg.get("precov"):
         P.BP.likelihood.distribution.compute_cov()
         P.BP.prior.compute_cov()
@@ -654,7 +725,7 @@ EPS = 2.220446049250313e-16
 FD = 1.4901161193847656e-08
 
 
-def _gtol(route, fabs, Hn, xn):
+def _gtol(route, fabs, Hn, xn, cancel=1.0):
     """What scipy's default termination leaves of the gradient (inf-norm), times 20.
 
     BFGS (scipy.optimize.minimize default): |g|_inf <= gtol = 1e-5 for the gradient it is given; a 2-point
@@ -663,6 +734,10 @@ def _gtol(route, fabs, Hn, xn):
     gradient only through |g|^2 <= 2 |H| * decrease."""
     if route == "direct":
         return None
+    if route == "bfgs-exact":
+        # the optimiser was handed the exact gradient (linear model, Gaussian densities): BFGS stops at |g|_inf <= gtol
+        # for that gradient, which differs from the reference gradient by rounding only
+        return 20.0 * (1e-5 + 1e3 * EPS * max(1.0, cancel))
     bfgs = 1e-5 + 2 * EPS * max(1.0, fabs) / FD + FD * Hn * max(1.0, xn)
     if route == "bfgs":
         return 20.0 * bfgs
@@ -690,7 +765,7 @@ def _judge(x, n, logf, gradf, sig, Hn, route, exact=None, Hinv_n=None, cancel=1.
     if gradf is not None:
         g = np.asarray(gradf(xa), float)
         gn = float(np.max(np.abs(g)))
-        tol = 1e-8 * max(1.0, cancel) if route == "direct" else _gtol(route, abs(f0), Hn, xn)
+        tol = 1e-8 * max(1.0, cancel) if route == "direct" else _gtol(route, abs(f0), Hn, xn, cancel)
         met["g_ratio"] = gn / tol
         if gn > tol:
             out["gradient"] = "reference gradient at the returned point has inf-norm %.3g > %.3g" % (gn, tol)
@@ -700,7 +775,7 @@ def _judge(x, n, logf, gradf, sig, Hn, route, exact=None, Hinv_n=None, cancel=1.
         if route == "direct":
             tol = 1e-9 * max(1.0, float(np.max(np.abs(exact))), xn)
         else:
-            tol = Hinv_n * _gtol(route, abs(f0), Hn, xn) * 1.001 + 1e-12
+            tol = Hinv_n * _gtol(route, abs(f0), Hn, xn, cancel) * 1.001 + 1e-12
         met["x_ratio"] = err / tol
         if err > tol:
             out["value"] = "returned %s, closed form %s (max abs difference %.3g > %.3g)" % (
@@ -793,11 +868,11 @@ def _quiet():
     return contextlib.redirect_stdout(io.StringIO())
 
 
-def _prepare(size, k, cfg):
+def _prepare(size, k, cfg, shared=None, builder=None):
     """(status-if-unusable, problem, effective matrix, offset): built once per configuration."""
     try:
         with _quiet():
-            P = _build(size, k, cfg)
+            P = builder() if builder is not None else _build(size, k, cfg, shared)
     except HarnessError:
         raise
     except Exception as e:
@@ -814,7 +889,7 @@ def _prepare(size, k, cfg):
     return None, P, G, z
 
 
-def _op_estimate(size, k, cfg, which, x0=None, prep=None, judge_failed=False):
+def _op_estimate(size, k, cfg, which, x0=None, prep=None, judge_failed=False, exact_grad=False):
     """which in {'MAP','ML'}: returns (status, kinds, obs); status in built-refused / refused / judged.
 
     judge_failed=True (used only while reducing an already established violation to its necessary facets)
@@ -835,6 +910,8 @@ def _op_estimate(size, k, cfg, which, x0=None, prep=None, judge_failed=False):
     info = getattr(xs, "info", None)
     flagged = _refused_by_solver(info) and not judge_failed
     route = _route(info)
+    if exact_grad and route == "bfgs":
+        route = "bfgs-exact"
     kinds, met = _judge(np.asarray(xs), P.n, ref.logd, ref.grad, ref.sig, ref.Hn, route,
                         exact=ref.mean, Hinv_n=ref.Hinv_n, cancel=ref.cancel)
     obs = {"returned": np.asarray(xs, float), "reference": ref.mean, "route": route, "metrics": met,
@@ -1392,6 +1469,349 @@ def _eval_nl(cell):
     return res
 
 
+# ----------------------------------------------------------------------------------------
+# process-history facet: a SEQUENCE of independent problems solved in one (fresh) interpreter
+# ----------------------------------------------------------------------------------------
+# Every other family builds one problem per configuration on new objects; what the process did before is whatever the
+# worker happened to evaluate.  A hist cell fixes the complete history of its process: it is evaluated in a process forked
+# from a pristine interpreter that has imported the library and has never constructed a library object, and there solves
+#   first (problem 1, new objects) -> second (problem 2, new objects) -> first-again (the estimates / draws of problem 1
+#   are requested again from the SAME problem-1 objects) -> first-rebuilt (problem 1 built once more)
+# Oracle: every step meets the unchanged oracle of its own problem as if it were solved alone (dense closed form, lattice
+# neighbours, gradient; direct draws: closed-form mean and covariance), and the results of problem 1 after problem 2 are
+# those obtained before it.
+#   kind "opt"    two optimiser-route problems: a tiny one (1-2 unknowns) and a large badly conditioned one (100 unknowns,
+#                 singular values 1 .. 1e-5, about 650 BFGS iterations from the default start), in both orders
+#   kind "share"  two closed-form / direct-route problems that have user-side OBJECTS in common but are different
+#                 problems: the same forward+adjoint function objects or the same matrix object under two different
+#                 geometries; the same data array object under two noise specifications; the same prior object under
+#                 two noise specifications and operators; the same model object under two priors; functions + data +
+#                 prior objects in common under two geometries and noise specifications - in both orders
+HIST_SMALL = {      # name -> (estimate, (m, n), model)
+    "ml-n1": ("ML", (3, 1), "matrix"),
+    "ml-n2-function": ("ML", (3, 2), "function"),
+    "map-n1-nograd": ("MAP", (2, 1), "generic-nograd"),
+    "map-n2-jac": ("MAP", (3, 2), "generic-jac"),
+}
+HIST_LARGE = {"ml-N100": "ML", "map-N100-jac": "MAP"}
+LARGE_N, LARGE_M, LARGE_S2, LARGE_PRIOR_COV = 100, 105, 1e-4, 1e6
+SHARE_WANT = {"functions": ("fns",), "matrix": ("A",), "data": ("b",), "prior": ("x",), "model": ("M",),
+              "everything": ("fns", "b", "x")}
+SAME_N_GEOMS = ("default", "cont", "klall", "mapped")     # number of parameters = number of function values
+
+
+def _hist_n(geom, N):
+    """Number of parameters of the geometry called `geom` on N function values."""
+    return {"step": N // 2, "kltrunc": N - 2}.get(geom, N)
+
+
+def _ordered_pairs(items):
+    return [(a, b) for a in items for b in items if a != b]
+
+
+def _hist_cells(k, thorough):
+    # ---- (a) optimiser route: tiny <-> large
+    for small in HIST_SMALL:
+        for large in HIST_LARGE:
+            for seq in ([small, large], [large, small]):
+                yield {"fam": "hist", "kind": "opt", "seq": seq, "cat": k}
+    if thorough:        # two tiny problems of different size, two large problems on different estimates
+        for a, b in _ordered_pairs(list(HIST_SMALL)) + _ordered_pairs(list(HIST_LARGE)):
+            yield {"fam": "hist", "kind": "opt", "seq": [a, b], "cat": k}
+    # ---- (b) user-side objects in common
+    spec_pairs = _ordered_pairs(SMALL_SPECS if not thorough else [(p_, s_) for p_ in PARAMS for s_ in SHAPES])
+    for N in ((4, 6) if thorough else (4,)):
+        m = N + 1
+        def cell(share, base, first, second):
+            return {"fam": "hist", "kind": "share", "share": share, "N": N, "m": m, "cat": k, "base": base,
+                    "first": first, "second": second}
+        # the same function objects / the same matrix object, two geometries
+        defs = [("functions", "function", "fresh"), ("matrix", "matrix", "fresh")]
+        if thorough:
+            defs += [("functions", "function", "cuqiarray"), ("matrix", "sparse-csr", "fresh")]
+        for (share, model, ret) in defs:
+            for g1, g2 in _ordered_pairs(GEOMS):
+                for (lik, pri) in (SMALL_PAIRS if thorough else SMALL_PAIRS[:1]):
+                    yield cell(share, {"model": model, "ret": ret, "lp": lik[0], "ls": lik[1], "pp": pri[0], "ps": pri[1]},
+                               {"geom": g1}, {"geom": g2})
+        # the same data array object, two noise specifications
+        for (model, geom) in [("matrix", "default"), ("function", "klall")]:
+            for l1, l2 in spec_pairs:
+                yield cell("data", {"model": model, "geom": geom}, {"lp": l1[0], "ls": l1[1]}, {"lp": l2[0], "ls": l2[1]})
+        # the same prior object, two operators and noise specifications
+        for (model, geom) in [("matrix", "default"), ("function", "klall")]:
+            for (pp, ps) in (SMALL_SPECS if thorough else SMALL_SPECS[:1] + SMALL_SPECS[3:]):
+                for l1, l2 in _ordered_pairs(SMALL_SPECS):
+                    yield cell("prior", {"model": model, "geom": geom, "pp": pp, "ps": ps, "mean": "vector"},
+                               {"lp": l1[0], "ls": l1[1], "acat": 0}, {"lp": l2[0], "ls": l2[1], "acat": 1})
+        # the same model object, two priors (and noise specifications)
+        for (model, geom) in [("matrix", "default"), ("function", "klall"), ("matrix", "step")]:
+            for p1, p2 in spec_pairs:
+                yield cell("model", {"model": model, "geom": geom},
+                           {"pp": p1[0], "ps": p1[1], "mean": "zerovec", "lp": "cov", "ls": "scalar"},
+                           {"pp": p2[0], "ps": p2[1], "mean": "vector", "lp": "prec", "ls": "vector"})
+        # function, data and prior objects in common, two geometries of the same number of parameters and two noises
+        for g1, g2 in _ordered_pairs(SAME_N_GEOMS):
+            for l1, l2 in (_ordered_pairs(SMALL_SPECS) if thorough else [(SMALL_SPECS[0], SMALL_SPECS[1]),
+                                                                          (SMALL_SPECS[3], SMALL_SPECS[2])]):
+                yield cell("everything", {"model": "function", "pp": "prec", "ps": "vector", "mean": "vector"},
+                           {"geom": g1, "lp": l1[0], "ls": l1[1]}, {"geom": g2, "lp": l2[0], "ls": l2[1]})
+
+
+def _large_operator(N, m):
+    """m x N, singular values 10^(-5 i/(N-1)), singular vectors = orthonormal DCT bases (dense, no symmetry to exploit)."""
+    import scipy.fft
+    U = scipy.fft.dct(np.eye(m), type=2, norm="ortho", axis=0)[:, :N]
+    V = scipy.fft.dct(np.eye(N), type=4, norm="ortho", axis=0)
+    if not (close(U.T @ U, np.eye(N), 1e-12) and close(V.T @ V, np.eye(N), 1e-12)):
+        raise HarnessError("DCT bases are not orthonormal")
+    sv = 10.0 ** (-5.0 * np.arange(N) / (N - 1))
+    return (U * sv) @ V.T
+
+
+def _build_large(name, k):
+    """The large optimiser-route problems: ML of a LinearModel, MAP behind a generic Model with Jacobian."""
+    from cuqi.distribution import Gaussian
+    from cuqi.model import LinearModel, Model
+    from cuqi.problem import BayesianProblem
+    N, m, s2 = LARGE_N, LARGE_M, LARGE_S2
+    A = _large_operator(N, m)
+    b = A @ refs.dyadic_vec(N, k, scale=0.25) + math.sqrt(s2) * refs.dyadic_vec(m, k + 1, scale=0.25)
+    if HIST_LARGE[name] == "ML":
+        M, pc = LinearModel(A.copy()), 1.0
+    else:
+        M, pc = Model(lambda x: A @ x, range_geometry=m, domain_geometry=N, jacobian=lambda x: A), LARGE_PRIOR_COV
+    x = Gaussian(np.zeros(N), pc)
+    y = Gaussian(M(x), s2)
+    P = _Problem()
+    P.BP = BayesianProblem(y, x).set_data(y=b.copy())
+    P.M, P.b, P.Ce, P.Cx, P.mu, P.n, P.m = M, b, s2 * np.eye(m), pc * np.eye(N), np.zeros(N), N, m
+    return P
+
+
+class _HistProblem:
+    """One problem of a history: how to build it, which operations are requested, how its signature calls it."""
+
+    def __init__(self, cell, idx):
+        k = cell["cat"]
+        self.k = k
+        if cell["kind"] == "opt":
+            name = cell["seq"][idx]
+            self.label = name
+            if name in HIST_LARGE:
+                self.ops = [HIST_LARGE[name]]
+                self.size, self.cfg, self.exact = (LARGE_M, LARGE_N), {"problem": name}, True
+                self.prepare = lambda shared: _prepare(None, k, None, builder=lambda: _build_large(name, k))
+            else:
+                which, size, model = HIST_SMALL[name]
+                cfg = dict(BASE, model=model)
+                self.ops, self.size, self.cfg, self.exact = [which], size, cfg, model != "generic-nograd"
+                self.prepare = lambda shared: _prepare(size, k, cfg)
+        else:
+            cfg = dict(BASE)
+            cfg.update(cell["base"])
+            cfg.update(cell["first" if idx == 0 else "second"])
+            # the closed-form / direct route needs the covariances: a Gaussian given by prec / sqrtcov / sqrtprec has
+            # none until the public compute_cov() ran (without it MAP() and the direct sampler refuse)
+            cfg["precov"] = cfg["lp"] != "cov" or cfg["pp"] != "cov"
+            size = (cell["m"], _hist_n(cfg["geom"], cell["N"]))
+            self.label = ",".join("%s=%s" % kv for kv in sorted(cell["first" if idx == 0 else "second"].items()))
+            self.ops, self.size, self.cfg, self.exact = ["MAP", "sample", "ML"], size, cfg, True
+            self.prepare = lambda shared: _prepare(size, k, cfg, shared=shared)
+
+    def run(self, op, prep):
+        if op == "sample":
+            return _op_sample(self.size, self.k, self.cfg, prep=prep)
+        return _op_estimate(self.size, self.k, self.cfg, op, prep=prep, exact_grad=self.exact)
+
+
+HIST_COMPONENT = {"MAP": "BayesianProblem.MAP", "ML": "BayesianProblem.ML", "sample": "BayesianProblem.sample_posterior"}
+
+
+def _hist_facet(cell):
+    if cell["kind"] == "share":
+        return "share=" + cell["share"]
+    a, b = cell["seq"]
+    size = lambda nm: "large" if nm in HIST_LARGE else "small"
+    return "seq=%s-then-%s" % (size(a), size(b))
+
+
+def _hist_changed(op, st, before, after, n):
+    """Message if the result of problem 1 after problem 2 differs from the one before it, else None."""
+    a, b = np.asarray(before["returned"], float), np.asarray(after["returned"], float)
+    if a.shape != b.shape:
+        return "shape %s before, %s after" % (a.shape, b.shape)
+    if st.endswith("direct"):
+        if not close(a, b, 1e-9):
+            return "%s before, %s after" % (np.array2string(a, precision=8), np.array2string(b, precision=8))
+        if op == "sample" and "T" in before and "T" in after and not close(
+                before["T"] @ before["T"].T, after["T"] @ after["T"].T, 1e-9):
+            return "covariance of the draws %s before, %s after" % (
+                np.array2string((before["T"] @ before["T"].T).ravel(), precision=6),
+                np.array2string((after["T"] @ after["T"].T).ravel(), precision=6))
+    return None     # optimiser route: both points were held against the closed form within the solver tolerance
+
+
+def _hist_run(cell):
+    """The complete history of one process (runs in a process forked from the pristine interpreter)."""
+    np.set_printoptions(threshold=12, edgeitems=3)     # messages about 100 unknowns stay readable (own process)
+    res = CellResult(cell)
+    probs = [_HistProblem(cell, 0), _HistProblem(cell, 1)]
+    shared = {"want": SHARE_WANT[cell["share"]]} if cell["kind"] == "share" else None
+    facet = _hist_facet(cell)
+    first_prep, before, failed_first, judged = None, {}, set(), 0
+    for (pos, idx, rebuild) in [("first", 0, True), ("second", 1, True), ("first-again", 0, False),
+                                ("first-rebuilt", 0, True)]:
+        pr = probs[idx]
+        prep = pr.prepare(shared) if rebuild else first_prep
+        if pos == "first":
+            first_prep = prep
+        map_bad = None
+        for op in pr.ops:
+            st, kinds, obs = pr.run(op, prep)
+            res.transitions += 1
+            res.state("%s:%s:%s" % (pos, op, st))
+            res.outcomes.add("hist:%s:%s:%s" % (pos, op, st) + (":" + "+".join(sorted(kinds)) if kinds else ""))
+            res.count("hist:%s:%s" % (op, st.split(":")[0]))
+            if not st.startswith("judged"):
+                if not st.startswith("other-route"):
+                    res.refused += 1
+                continue
+            judged += 1
+            res.evaluations += 1
+            res.transitions += (obs or {}).get("transitions", 4 * pr.size[1])
+            if op == "sample":
+                res.traces += 1
+                if "mean" in kinds and map_bad is not None and np.shape(map_bad) == np.shape(obs["returned"]) \
+                        and close(map_bad, obs["returned"], 1e-9):
+                    res.count("sample-mean-inherits-MAP-failure")
+                    kinds = {q: v for q, v in kinds.items() if q != "mean"}
+            if kinds:
+                if op == "MAP":
+                    map_bad = obs["returned"]
+                name = _primary(kinds)
+                if idx == 0:
+                    if pos == "first":
+                        failed_first.add((op, name))
+                    elif (op, name) in failed_first:
+                        continue        # problem 1 fails the same way before any history: reported once, as "first"
+                obs = {q: v for q, v in (obs or {}).items() if q != "transitions"}
+                res.fail("C15|%s|%s-%s|history=%s,%s" % (HIST_COMPONENT[op], "direct" if op == "sample" else _oplabel(st),
+                                                       name, pos, facet),
+                         "%s, step '%s' (problem %s of the sequence [%s] -> [%s]): %s" % (
+                             HIST_COMPONENT[op], pos, "2" if idx else "1", probs[0].label, probs[1].label,
+                             "; ".join(kinds[q] for q in KIND_ORDER if q in kinds)),
+                         focus={"step": pos, "config": pr.cfg, "size": list(pr.size)}, **obs)
+                continue
+            if idx == 0 and pos == "first":
+                before[op] = (st, obs)
+                if res.sample is None:
+                    res.sample = {"step": pos, "operation": op, "returned": obs["returned"],
+                                  "closed_form": obs.get("reference")}
+            elif idx == 0 and op in before and before[op][0] == st:
+                res.evaluations += 1
+                msg = _hist_changed(op, st, before[op][1], obs, pr.size[1])
+                if msg:
+                    res.fail("C15|%s|%s-changed|history=%s,%s" % (HIST_COMPONENT[op],
+                                                                 "direct" if op == "sample" else _oplabel(st), pos, facet),
+                             "%s of problem 1 [%s] requested again after problem 2 [%s] was solved (%s): %s" % (
+                                 HIST_COMPONENT[op], probs[0].label, probs[1].label, pos, msg),
+                             focus={"step": pos, "config": pr.cfg, "size": list(pr.size)})
+    res.nontrivial = judged > 0
+    return res
+
+
+_HIST_SERVER = {}      # pid of the owning process -> Popen of its pristine interpreter
+
+
+def _hist_server():
+    """The pristine interpreter of this (worker) process: has imported cuqi from the tree under test and this module,
+    has never constructed a library object; forks one child per hist cell.  Ends when its owner ends (EOF on stdin)."""
+    import os
+    import subprocess
+    import sys
+    pid = os.getpid()
+    z = _HIST_SERVER.get(pid)
+    if z is not None and z.poll() is None:
+        return z
+    import cuqi
+    from vfw.core import ROOT
+    repo = os.path.dirname(os.path.dirname(os.path.abspath(cuqi.__file__)))
+    code = "import sys; sys.path[:0] = [%r, %r]; import checks.c15 as m; m._hist_server_main()" % (repo, ROOT)
+    z = subprocess.Popen([sys.executable, "-W", "ignore", "-c", code], stdin=subprocess.PIPE, stdout=subprocess.PIPE,
+                         stderr=subprocess.DEVNULL, text=True, bufsize=1, cwd=ROOT)
+    _HIST_SERVER.clear()
+    _HIST_SERVER[pid] = z
+    return z
+
+
+def _hist_server_main():
+    import json
+    import os
+    import traceback
+    import warnings
+    warnings.filterwarnings("ignore")
+    import scipy.fft, scipy.optimize, scipy.sparse                              # noqa: E401,F401
+    import cuqi, cuqi.distribution, cuqi.geometry, cuqi.model, cuqi.problem    # noqa: E401,F401  (import only)
+    pin, pout = os.fdopen(os.dup(0), "r"), os.fdopen(os.dup(1), "w")
+    null = os.open(os.devnull, os.O_RDWR)
+    for fd in (0, 1, 2):
+        os.dup2(null, fd)
+    while True:
+        line = pin.readline()
+        if not line:
+            return
+        r, w = os.pipe()
+        pid = os.fork()
+        if pid == 0:
+            try:
+                os.close(r)
+                try:
+                    np.random.seed(20261003)
+                    with _quiet():
+                        out = json.dumps(_hist_run(json.loads(line)).pack(), default=str)
+                except BaseException:
+                    out = json.dumps({"error": traceback.format_exc()})
+                data = out.encode()
+                while data:
+                    data = data[os.write(w, data):]
+            finally:
+                os._exit(0)
+        os.close(w)
+        chunks = []
+        while True:
+            c = os.read(r, 1 << 16)
+            if not c:
+                break
+            chunks.append(c)
+        os.close(r)
+        os.waitpid(pid, 0)
+        pout.write(b"".join(chunks).decode().replace("\n", " ") + "\n")
+        pout.flush()
+
+
+def _eval_hist(cell):
+    import json
+    z = _hist_server()
+    try:
+        z.stdin.write(json.dumps(cell) + "\n")
+        z.stdin.flush()
+        line = z.stdout.readline()
+    except (BrokenPipeError, OSError) as e:
+        raise HarnessError("history interpreter is gone: %r" % (e,))
+    if not line.strip():
+        raise HarnessError("history interpreter returned nothing for %r" % (cell,))
+    p = json.loads(line)
+    if p.get("error"):
+        raise HarnessError("history cell failed inside its process:\n%s" % p["error"])
+    res = CellResult(cell)
+    res.states, res.outcomes = set(p["states"]), set(p["outcomes"])
+    res.transitions, res.traces, res.evaluations = p["transitions"], p["traces"], p["evaluations"]
+    res.failures, res.nontrivial, res.sample = p["failures"], p["nontrivial"], p["sample"]
+    res.branches, res.refused = p["branches"], p["refused"]
+    return res
+
+
 def eval_cell(cell):
     fam = cell["fam"]
     if fam == "lg":
@@ -1402,4 +1822,6 @@ def eval_cell(cell):
         return _eval_lgopt(cell)
     if fam == "nl":
         return _eval_nl(cell)
+    if fam == "hist":
+        return _eval_hist(cell)
     raise HarnessError("unknown family %r" % fam)
